@@ -1,5 +1,371 @@
-//! C01 — not built yet.
-#![allow(unused)]
+//! C01 — linear systems through every entry point: case generation for the Coq correspondence and the
+//! failure-search oracle (residuals in double-double, finiteness, route independence, rejection).
+#![allow(clippy::needless_range_loop)]
 use crate::util::*;
-pub fn gen(_tier: &str, _seed: u64, _outdir: &str) { eprintln!("C01: gen not implemented"); std::process::exit(3); }
-pub fn oracle(_tier: &str, _seed: u64) -> (u64, Vec<Finding>) { eprintln!("C01: oracle not implemented"); std::process::exit(3); }
+use compute::linalg::{
+    cholesky, col_to_row_major, invert_matrix, is_positive_definite, is_symmetric, row_to_col_major, solve, solve_sys, try_cholesky, Matrix, Solve,
+    Vector,
+};
+
+// ---------------------------------------------------------------------------------------------
+// matrix classes of the property text
+pub const CLASSES: [&str; 9] = [
+    "dense", "integer-known", "spd", "sym-indef-posdiag", "diag-dominant", "perm-scaled-triangular", "graded", "tiny-scale-posdiag", "sym-dd-posdiag",
+];
+
+fn pow2(k: i64) -> f64 { (2.0f64).powi(k as i32) }
+
+/// one matrix of class `c`, order n, row-major.  All classes are nonsingular by construction or generically
+/// (the oracle re-checks with its own elimination and skips numerically singular draws).
+pub fn gen_matrix(r: &mut Rng, c: &str, n: usize) -> Vec<f64> {
+    let mut a = vec![0.0; n * n];
+    match c {
+        "dense" => { for x in a.iter_mut() { *x = r.uniform(-4.0, 4.0); } }
+        "integer-known" => {
+            // A = P . L . U with unit lower L, upper U with diagonal in {+-1,+-2,+-3}, entries in {-1,0,1}: exactly nonsingular, integer
+            let mut l = vec![0.0; n * n]; let mut u = vec![0.0; n * n];
+            for i in 0..n { for j in 0..n {
+                if j < i { l[i * n + j] = r.range(-1, 1) as f64; }
+                else if j == i { l[i * n + j] = 1.0; let d = r.range(1, 3) as f64; u[i * n + j] = if r.coin(0.5) { d } else { -d }; }
+                else { u[i * n + j] = r.range(-1, 1) as f64; }
+            }}
+            let mut p: Vec<usize> = (0..n).collect();
+            for i in (1..n).rev() { let j = r.below(i as u64 + 1) as usize; p.swap(i, j); }
+            for i in 0..n { for j in 0..n { let mut s = 0.0; for k in 0..n { s += l[i * n + k] * u[k * n + j]; } a[p[i] * n + j] = s; } }
+        }
+        "spd" => {
+            // M^T M + I with small integer or real M: exactly symmetric (same products in the same order)
+            let m: Vec<f64> = if r.coin(0.5) { (0..n * n).map(|_| r.small_int(3)).collect() } else { (0..n * n).map(|_| r.uniform(-1.0, 1.0)).collect() };
+            for i in 0..n { for j in 0..n { let mut s = 0.0; for k in 0..n { s += m[k * n + i] * m[k * n + j]; } a[i * n + j] = s + if i == j { 1.0 } else { 0.0 }; } }
+        }
+        "sym-indef-posdiag" => {
+            // symmetric, positive diagonal, large off-diagonal entries: indefinite for n >= 2 (a 2x2 principal minor is negative)
+            for i in 0..n { for j in 0..=i {
+                let v = if i == j { r.uniform(0.5, 2.0) } else { let m = r.uniform(2.5, 6.0); if r.coin(0.5) { m } else { -m } };
+                a[i * n + j] = v; a[j * n + i] = v;
+            }}
+        }
+        "sym-dd-posdiag" => {
+            // symmetric, strictly diagonally dominant with positive diagonal: SPD, Cholesky route
+            for i in 0..n { for j in 0..i { let v = r.uniform(-1.0, 1.0); a[i * n + j] = v; a[j * n + i] = v; } }
+            for i in 0..n { let s: f64 = (0..n).filter(|&j| j != i).map(|j| a[i * n + j].abs()).sum(); a[i * n + i] = s + r.uniform(0.5, 2.0); }
+        }
+        "diag-dominant" => {
+            for x in a.iter_mut() { *x = r.uniform(-1.0, 1.0); }
+            for i in 0..n { let s: f64 = (0..n).filter(|&j| j != i).map(|j| a[i * n + j].abs()).sum(); let d = s + r.uniform(0.5, 2.0); a[i * n + i] = if r.coin(0.5) { d } else { -d }; }
+        }
+        "perm-scaled-triangular" => {
+            let upper = r.coin(0.5);
+            let mut t = vec![0.0; n * n];
+            for i in 0..n { for j in 0..n {
+                let inside = if upper { j >= i } else { j <= i };
+                if i == j { let d = r.uniform(0.5, 2.0); t[i * n + j] = if r.coin(0.5) { d } else { -d }; }
+                else if inside { t[i * n + j] = r.uniform(-1.0, 1.0); }
+            }}
+            let mut p: Vec<usize> = (0..n).collect();
+            for i in (1..n).rev() { let j = r.below(i as u64 + 1) as usize; p.swap(i, j); }
+            for i in 0..n { let s = pow2(r.range(-20, 20)); for j in 0..n { a[p[i] * n + j] = s * t[i * n + j]; } }
+        }
+        "graded" => {
+            // D1 . R . D2, R strictly diagonally dominant, D graded over 10 decades on one side (cond <= ~1e10 . cond(R))
+            let mut rr = vec![0.0; n * n];
+            for x in rr.iter_mut() { *x = r.uniform(-1.0, 1.0); }
+            for i in 0..n { let s: f64 = (0..n).filter(|&j| j != i).map(|j| rr[i * n + j].abs()).sum(); rr[i * n + i] = s + 1.0; }
+            let rows = r.coin(0.5);
+            for i in 0..n { for j in 0..n {
+                let k = if rows { i } else { j };
+                let e = if n > 1 { -33.0 * k as f64 / (n - 1) as f64 } else { 0.0 };   // 2^-33 ~ 1e-10
+                a[i * n + j] = rr[i * n + j] * pow2(e.round() as i64);
+            }}
+        }
+        _ => {
+            // "tiny-scale-posdiag": a well-conditioned NON-symmetric matrix with positive diagonal, scaled by 2^-k:
+            // its entries are below f64::EPSILON in magnitude
+            for x in a.iter_mut() { *x = r.uniform(-1.0, 1.0); }
+            for i in 0..n { let s: f64 = (0..n).filter(|&j| j != i).map(|j| a[i * n + j].abs()).sum(); a[i * n + i] = s + r.uniform(0.5, 2.0); }
+            let s = pow2(-r.range(56, 80));
+            for x in a.iter_mut() { *x *= s; }
+        }
+    }
+    a
+}
+
+pub fn gen_rhs(r: &mut Rng, c: &str, a: &[f64], n: usize, k: usize) -> Vec<f64> {
+    // row-major n x k
+    if c == "integer-known" {
+        let x: Vec<f64> = (0..n * k).map(|_| r.small_int(5)).collect();
+        let mut b = vec![0.0; n * k];
+        for i in 0..n { for j in 0..k { let mut s = 0.0; for l in 0..n { s += a[i * n + l] * x[l * k + j]; } b[i * k + j] = s; } }
+        b
+    } else if r.coin(0.3) { (0..n * k).map(|_| r.small_int(9)).collect() }
+    else { (0..n * k).map(|_| r.uniform(-4.0, 4.0)).collect() }
+}
+
+fn mat_out(m: &Matrix) -> Vec<f64> {
+    let mut v = vec![m.nrows as f64, m.ncols as f64];
+    v.extend_from_slice(&m.data);
+    v
+}
+fn b2f(b: bool) -> Vec<f64> { vec![if b { 1.0 } else { 0.0 }] }
+fn tc_out(r: Option<Vec<f64>>) -> Vec<f64> { match r { Some(l) => { let mut v = vec![1.0]; v.extend_from_slice(&l); v } None => vec![0.0] } }
+fn push_chol(cs: &mut Cases, a: &[f64], tag: &str, nt: bool) {
+    let res = catch(|| tc_out(try_cholesky(a)));
+    cs.push(app("CTryChol", vec![fl(a), outcome_list(&res)]), &format!("try_cholesky/{}/{}", tag, match &res { Ok(v) if v[0] == 1.0 => "factor", Ok(_) => "not-pd", Err(_) => "panic" }), nt);
+    let res = catch(|| cholesky(a));
+    cs.push(app("CChol", vec![fl(a), outcome_list(&res)]), &format!("cholesky/{}/{}", tag, if res.is_ok() { "factor" } else { "panic" }), nt);
+}
+
+// ---------------------------------------------------------------------------------------------
+// correspondence cases
+pub fn gen(tier: &str, seed: u64, outdir: &str) {
+    let mut r = Rng::new(seed);
+    let mut cs = Cases::new("C01");
+    let thorough = tier == "thorough";
+    let nmax = if thorough { 32 } else { 12 };
+    let reps = if thorough { 2 } else { 1 };
+    let nat = |x: usize| Tm::Nat(x as u64);
+    for _ in 0..reps { for n in 1..=nmax { for c in CLASSES.iter() {
+        if thorough && n > 16 && r.coin(0.5) { continue; }
+        let a = gen_matrix(&mut r, c, n);
+        let k = 1 + r.below(6) as usize;
+        let bm = gen_rhs(&mut r, c, &a, n, k);
+        let bv: Vec<f64> = (0..n).map(|i| bm[i * k]).collect();
+        let route = if is_positive_definite(&a) { "pd-predicate" } else { "lu" };
+        let nt = n >= 2;
+        // slice entry points
+        let res = catch(|| solve(&a, &bv));
+        cs.push(app("CSolve", vec![fl(&a), fl(&bv), outcome_list(&res)]), &format!("solve/{}/{}", c, route), nt);
+        let res = catch(|| solve_sys(&a, &bm));
+        cs.push(app("CSolveSys", vec![fl(&a), fl(&bm), outcome_list(&res)]), &format!("solve_sys/{}/{}", c, route), nt);
+        if n <= 16 || r.coin(0.4) {
+            let res = catch(|| invert_matrix(&a));
+            cs.push(app("CInvert", vec![fl(&a), outcome_list(&res)]), &format!("invert_matrix/{}/{}", c, route), nt);
+        }
+        // Matrix entry points (always LU)
+        let m = Matrix::new(a.clone(), n as i32, n as i32);
+        let res = catch(|| Solve::<Vector>::solve(&m, &Vector::new(bv.clone())).v);
+        cs.push(app("CMSolveV", vec![nat(n), nat(n), fl(&a), fl(&bv), outcome_list(&res)]), &format!("Matrix::solve(Vector)/{}", c), nt);
+        let sm = Matrix::new(bm.clone(), n as i32, k as i32);
+        let res = catch(|| mat_out(&Solve::<Matrix>::solve(&m, &sm)));
+        cs.push(app("CMSolveM", vec![nat(n), nat(n), fl(&a), nat(n), nat(k), fl(&bm), outcome_list(&res)]), &format!("Matrix::solve(Matrix)/{}", c), nt);
+        if n <= 16 || r.coin(0.4) {
+            let res = catch(|| mat_out(&m.inv()));
+            cs.push(app("CMInv", vec![nat(n), nat(n), fl(&a), outcome_list(&res)]), &format!("Matrix::inv/{}", c), nt);
+        }
+        // predicates
+        let res = catch(|| b2f(is_symmetric(&a)));
+        cs.push(app("CIsSym", vec![fl(&a), outcome_list(&res)]), "is_symmetric", nt);
+        let res = catch(|| b2f(is_positive_definite(&a)));
+        cs.push(app("CIsPD", vec![fl(&a), outcome_list(&res)]), "is_positive_definite", nt);
+        if n <= 16 { push_chol(&mut cs, &a, c, nt); }
+    }}}
+    // predicate boundary: asymmetry exactly at / just above / below the tolerance, zero / negative / NaN diagonal, special values
+    let npred = if thorough { 400 } else { 80 };
+    for it in 0..npred {
+        let n = 1 + r.below(5) as usize;
+        let mut a = gen_matrix(&mut r, "sym-dd-posdiag", n);
+        let scale = pow2(r.range(-70, 10));
+        for x in a.iter_mut() { *x *= scale; }
+        if n >= 2 {
+            let (i, j) = (r.below(n as u64) as usize, r.below(n as u64) as usize);
+            let base = a[i * n + j];
+            let d = match it % 6 { 0 => 0.0, 1 => base.abs() * f64::EPSILON, 2 => base.abs() * f64::EPSILON * 2.0, 3 => f64::EPSILON, 4 => f64::EPSILON * 1.5, _ => base.abs() * 0.25 };
+            if i != j { a[i * n + j] = base + d; }
+        }
+        match it % 9 { 0 => a[0] = 0.0, 1 => a[0] = -0.0, 2 => a[(n - 1) * n + n - 1] = -a[(n - 1) * n + n - 1], 3 => a[0] = f64::NAN, 4 => a[n - 1] = f64::INFINITY, 5 => a[n - 1] = f64::NAN, _ => {} }
+        let res = catch(|| b2f(is_symmetric(&a)));
+        cs.push(app("CIsSym", vec![fl(&a), outcome_list(&res)]), "is_symmetric/boundary", true);
+        let res = catch(|| b2f(is_positive_definite(&a)));
+        cs.push(app("CIsPD", vec![fl(&a), outcome_list(&res)]), "is_positive_definite/boundary", true);
+        let b: Vec<f64> = (0..n).map(|_| r.small_int(4)).collect();
+        let res = catch(|| solve(&a, &b));
+        cs.push(app("CSolve", vec![fl(&a), fl(&b), outcome_list(&res)]), "solve/boundary", true);
+        push_chol(&mut cs, &a, "boundary", true);
+    }
+    // singular / rank-deficient / zero matrices (values are inf/NaN: the model must reproduce them)
+    let nsing = if thorough { 120 } else { 30 };
+    for it in 0..nsing {
+        let n = 1 + r.below(6) as usize;
+        let mut a: Vec<f64> = (0..n * n).map(|_| r.small_int(3)).collect();
+        match it % 3 { 0 => { for j in 0..n { a[(n - 1) * n + j] = a[j]; } } 1 => { for x in a.iter_mut() { *x = 0.0; } } _ => { for i in 0..n { a[i * n] = 0.0; } } }
+        if it % 4 == 0 { for i in 0..n { for j in 0..i { a[i * n + j] = a[j * n + i]; } a[i * n + i] = a[i * n + i].abs() + 1.0; } }
+        let b: Vec<f64> = (0..n).map(|_| r.small_int(4)).collect();
+        let res = catch(|| solve(&a, &b));
+        cs.push(app("CSolve", vec![fl(&a), fl(&b), outcome_list(&res)]), "solve/singular", n >= 2);
+        let res = catch(|| invert_matrix(&a));
+        cs.push(app("CInvert", vec![fl(&a), outcome_list(&res)]), "invert_matrix/singular", n >= 2);
+        let m = Matrix::new(a.clone(), n as i32, n as i32);
+        let res = catch(|| Solve::<Vector>::solve(&m, &Vector::new(b.clone())).v);
+        cs.push(app("CMSolveV", vec![nat(n), nat(n), fl(&a), fl(&b), outcome_list(&res)]), "Matrix::solve(Vector)/singular", n >= 2);
+    }
+    // layout conversions on every small shape, distinct entries
+    let smax = if thorough { 9 } else { 6 };
+    for nr in 0..=smax { for nc in 0..=smax {
+        let a: Vec<f64> = (0..nr * nc).map(|i| i as f64 + 1.0).collect();
+        for rows in [nr, nc, nr + 1] {
+            let res = catch(|| row_to_col_major(&a, rows).v);
+            cs.push(app("CRowToCol", vec![fl(&a), nat(rows), outcome_list(&res)]), if res.is_ok() { "row_to_col_major/value" } else { "row_to_col_major/panic" }, nr >= 2 && nc >= 2);
+            let res = catch(|| col_to_row_major(&a, rows));
+            cs.push(app("CColToRow", vec![fl(&a), nat(rows), outcome_list(&res)]), if res.is_ok() { "col_to_row_major/value" } else { "col_to_row_major/panic" }, nr >= 2 && nc >= 2);
+        }
+    }}
+    // malformed stream: arbitrary lengths
+    let nbad = if thorough { 1500 } else { 300 };
+    for _ in 0..nbad {
+        let la = r.below(18) as usize; let lb = r.below(10) as usize;
+        let a: Vec<f64> = (0..la).map(|_| r.small_int(5)).collect();
+        let mut a = a; if r.coin(0.3) { let n = (la as f64).sqrt() as usize; if n * n == la { for i in 0..n { for j in 0..i { a[i * n + j] = a[j * n + i]; } a[i * n + i] = a[i * n + i].abs() + 6.0; } } }
+        let b: Vec<f64> = (0..lb).map(|_| r.small_int(5)).collect();
+        let res = catch(|| solve(&a, &b));
+        let tag = |ok: bool| if ok { "malformed-stream/value" } else { "malformed-stream/panic" };
+        cs.push(app("CSolve", vec![fl(&a), fl(&b), outcome_list(&res)]), tag(res.is_ok()), res.is_err());
+        let res = catch(|| solve_sys(&a, &b));
+        cs.push(app("CSolveSys", vec![fl(&a), fl(&b), outcome_list(&res)]), tag(res.is_ok()), res.is_err());
+        let res = catch(|| invert_matrix(&a));
+        cs.push(app("CInvert", vec![fl(&a), outcome_list(&res)]), tag(res.is_ok()), res.is_err());
+        let res = catch(|| b2f(is_symmetric(&a)));
+        cs.push(app("CIsSym", vec![fl(&a), outcome_list(&res)]), tag(res.is_ok()), res.is_err());
+        let res = catch(|| b2f(is_positive_definite(&a)));
+        cs.push(app("CIsPD", vec![fl(&a), outcome_list(&res)]), tag(res.is_ok()), res.is_err());
+        // Matrix forms: any positive shape whose product is la
+        if la > 0 {
+            let divs: Vec<usize> = (1..=la).filter(|d| la % d == 0).collect();
+            let nr = *r.pick(&divs); let nc = la / nr;
+            let m = Matrix::new(a.clone(), nr as i32, nc as i32);
+            let res = catch(|| Solve::<Vector>::solve(&m, &Vector::new(b.clone())).v);
+            cs.push(app("CMSolveV", vec![nat(nr), nat(nc), fl(&a), fl(&b), outcome_list(&res)]), tag(res.is_ok()), res.is_err());
+            let res = catch(|| mat_out(&m.inv()));
+            cs.push(app("CMInv", vec![nat(nr), nat(nc), fl(&a), outcome_list(&res)]), tag(res.is_ok()), res.is_err());
+            if lb > 0 {
+                let divs: Vec<usize> = (1..=lb).filter(|d| lb % d == 0).collect();
+                let sr = *r.pick(&divs); let sc = lb / sr;
+                let sm = Matrix::new(b.clone(), sr as i32, sc as i32);
+                let res = catch(|| mat_out(&Solve::<Matrix>::solve(&m, &sm)));
+                cs.push(app("CMSolveM", vec![nat(nr), nat(nc), fl(&a), nat(sr), nat(sc), fl(&b), outcome_list(&res)]), tag(res.is_ok()), res.is_err());
+            }
+        }
+    }
+    cs.write(outdir, if thorough { 60 } else { 150 },
+             "nine matrix classes (random dense, integer with known solution, SPD, symmetric indefinite with positive diagonal, symmetric diagonally dominant, diagonally dominant, permuted/scaled triangular, graded over ten decades, tiny-scale non-symmetric with positive diagonal) x every order 1..12 (quick) / 1..32 (thorough) x 1..6 right-hand sides through all six entry points (solve, solve_sys, invert_matrix, Matrix::solve for Vector and Matrix, Matrix::inv) and the two routing predicates; predicate-boundary matrices (asymmetry at the tolerance, zero/negative/NaN diagonal), singular matrices, every small layout conversion, and a malformed stream of arbitrary lengths/shapes; non-trivial = order >= 2 (value cases), a panic (malformed stream); distinct by hash of the case term");
+}
+
+// ---------------------------------------------------------------------------------------------
+// failure-search oracle
+
+/// double-double accumulation of sum_k a_k * x_k - b  (error-free products by FMA, two-sum accumulation)
+fn dd_residual(row: &[f64], x: &dyn Fn(usize) -> f64, b: f64) -> f64 {
+    let (mut hi, mut lo) = (-b, 0.0f64);
+    for (k, &a) in row.iter().enumerate() {
+        let xv = x(k);
+        let p = a * xv; let e = a.mul_add(xv, -p);
+        let s = hi + p; let bb = s - hi; let err = (hi - (s - bb)) + (p - bb);
+        hi = s; lo += err + e;
+    }
+    hi + lo
+}
+
+/// the oracle's own elimination with partial pivoting: returns (max_i sum_j (|L||U|)_ij, min |u_ii|, max |a_ij|)
+fn reference_growth(a: &[f64], n: usize) -> (f64, f64, f64) {
+    let mut m: Vec<Vec<f64>> = (0..n).map(|i| a[i * n..(i + 1) * n].to_vec()).collect();
+    let amax = a.iter().fold(0.0f64, |s, x| s.max(x.abs()));
+    let mut minpiv = f64::INFINITY;
+    for j in 0..n {
+        let p = (j..n).max_by(|&x, &y| m[x][j].abs().partial_cmp(&m[y][j].abs()).unwrap_or(std::cmp::Ordering::Equal)).unwrap();
+        m.swap(p, j);
+        let d = m[j][j];
+        minpiv = minpiv.min(d.abs());
+        if d == 0.0 || !d.is_finite() { return (f64::INFINITY, 0.0, amax); }
+        for i in (j + 1)..n { let f = m[i][j] / d; m[i][j] = f; for k in (j + 1)..n { let t = m[j][k]; m[i][k] -= f * t; } }
+    }
+    // |L||U| row sums
+    let mut worst = 0.0f64;
+    for i in 0..n {
+        let mut s = 0.0;
+        for j in 0..n { for k in 0..=i.min(j) { let l = if k == i { 1.0 } else { m[i][k].abs() }; s += l * m[k][j].abs(); } }
+        worst = worst.max(s);
+    }
+    (worst, minpiv, amax)
+}
+
+fn inf_norm_rows(a: &[f64], nr: usize, nc: usize) -> f64 { (0..nr).map(|i| a[i * nc..(i + 1) * nc].iter().map(|x| x.abs()).sum::<f64>()).fold(0.0, f64::max) }
+
+struct Sys<'a> { class: &'a str, a: &'a [f64], n: usize, lu_norm: f64 }
+
+/// checks X (row-major n x k) against B (row-major n x k); pushes at most one finding
+fn judge(sys: &Sys, entry: &str, route: &str, b: &[f64], k: usize, got: &Result<Vec<f64>, String>, input: &str, out: &mut Vec<Finding>) {
+    let n = sys.n;
+    match got {
+        Err(e) => out.push(Finding { class: format!("{}:panics-on-nonsingular route={}", entry, route), what: format!("{} panicked on a nonsingular {} system of order {}: {}", entry, sys.class, n, e), input: input.into() }),
+        Ok(x) => {
+            if x.len() != n * k { out.push(Finding { class: format!("{}:wrong-shape", entry), what: format!("{} returned {} values for an {}x{} unknown", entry, x.len(), n, k), input: input.into() }); return; }
+            if x.iter().any(|v| !v.is_finite()) {
+                out.push(Finding { class: format!("{}:non-finite route={}", entry, route), what: format!("{} returned non-finite values {:?} for a nonsingular {} matrix (the always-LU entry point returns finite values)", entry, &x[..x.len().min(8)], sys.class), input: input.into() });
+                return;
+            }
+            let anorm = inf_norm_rows(sys.a, n, n); let xnorm = inf_norm_rows(x, n, k).max(x.iter().fold(0.0f64, |s, v| s.max(v.abs())));
+            let bnorm = b.iter().fold(0.0f64, |s, v| s.max(v.abs()));
+            // backward-error bound of elimination with partial pivoting / of Cholesky, growth measured by the oracle's own elimination
+            let tol = 8.0 * n as f64 * f64::EPSILON * (sys.lu_norm.max(n as f64 * anorm) * xnorm + bnorm);
+            let mut worst = 0.0f64;
+            for j in 0..k { for i in 0..n {
+                let res = dd_residual(&sys.a[i * n..(i + 1) * n], &|l| x[l * k + j], b[i * k + j]);
+                worst = worst.max(res.abs());
+            }}
+            if !(worst <= tol) {
+                out.push(Finding { class: format!("{}:residual route={}", entry, route), what: format!("{}: ||A.X - B||_inf = {:e} exceeds 8 n eps (growth ||A|| ||X|| + ||B||) = {:e} on a {} matrix of order {}", entry, worst, tol, sys.class, n), input: input.into() });
+            }
+        }
+    }
+}
+
+pub fn oracle(tier: &str, seed: u64) -> (u64, Vec<Finding>) {
+    let mut r = Rng::new(seed ^ 0xC01);
+    let mut out: Vec<Finding> = vec![]; let mut tried = 0u64;
+    let iters = if tier == "thorough" { 6000 } else { 900 };
+    // the documented witness of D1 first
+    let mut fixed: Vec<(Vec<f64>, usize, &str)> = vec![(vec![1.0, 2.0, 2.0, 1.0], 2, "sym-indef-posdiag"), (vec![4.0, 6.0, 6.0, 1.0], 2, "sym-indef-posdiag")];
+    for it in 0..iters {
+        let (a, n, class): (Vec<f64>, usize, &str) = if let Some(f) = fixed.pop() { f } else {
+            let class = CLASSES[it % CLASSES.len()];
+            let n = if it % 5 == 0 { 1 + r.below(32) as usize } else { 1 + r.below(8) as usize };
+            (gen_matrix(&mut r, class, n), n, class)
+        };
+        let k = 1 + r.below(6) as usize;
+        let bm = gen_rhs(&mut r, class, &a, n, k);
+        let bv: Vec<f64> = (0..n).map(|i| bm[i * k]).collect();
+        let (lu_norm, minpiv, amax) = reference_growth(&a, n);
+        // numerically singular draws are outside the property's quantifier
+        if !(minpiv > 1e-13 * amax) || !lu_norm.is_finite() { continue; }
+        let sys = Sys { class, a: &a, n, lu_norm };
+        let route = if catch(|| is_positive_definite(&a)).unwrap_or(false) { "pd-predicate" } else { "lu" };
+        let input = format!("class={} n={} a={} b(row-major n x {})={}", class, n, json_floats(&a), k, json_floats(&bm));
+        crumb(&input);
+        let before = out.len();
+        tried += 1; judge(&sys, "solve", route, &bv, 1, &catch(|| solve(&a, &bv)), &input, &mut out);
+        tried += 1; judge(&sys, "solve_sys", route, &bm, k, &catch(|| solve_sys(&a, &bm)), &input, &mut out);
+        let eye: Vec<f64> = (0..n * n).map(|i| if i / n == i % n { 1.0 } else { 0.0 }).collect();
+        tried += 1; judge(&sys, "invert_matrix", route, &eye, n, &catch(|| invert_matrix(&a)), &input, &mut out);
+        let m = Matrix::new(a.clone(), n as i32, n as i32);
+        tried += 1; judge(&sys, "Matrix::solve(Vector)", "lu", &bv, 1, &catch(|| Solve::<Vector>::solve(&m, &Vector::new(bv.clone())).v), &input, &mut out);
+        let sm = Matrix::new(bm.clone(), n as i32, k as i32);
+        let got = catch(|| { let x = Solve::<Matrix>::solve(&m, &sm); assert!(x.nrows == n && x.ncols == k, "result shape {}x{}", x.nrows, x.ncols); x.data.v.clone() });
+        tried += 1; judge(&sys, "Matrix::solve(Matrix)", "lu", &bm, k, &got, &input, &mut out);
+        let got = catch(|| { let x = m.inv(); assert!(x.nrows == n && x.ncols == n, "result shape {}x{}", x.nrows, x.ncols); x.data.v.clone() });
+        tried += 1; judge(&sys, "Matrix::inv", "lu", &eye, n, &got, &input, &mut out);
+        // route independence: the slice solver against the always-LU Matrix solver on the same system -- both were judged
+        // against the same residual bound above; additionally a system whose routing predicate holds must not lose
+        // finiteness that the LU route keeps (reported by the non-finite classes above).
+        // rejection: mismatched sizes must panic
+        if it % 7 == 0 {
+            let bad: Vec<f64> = (0..n + 1 + r.below(2) as usize).map(|_| r.small_int(3)).collect();
+            tried += 3;
+            if let Ok(v) = catch(|| solve(&a, &bad)) { out.push(Finding { class: "solve:mismatch-accepted".into(), what: format!("solve returned {} values for a right-hand side of length {} against order {}", v.len(), bad.len(), n), input: format!("{} bad_b={}", input, json_floats(&bad)) }); }
+            if n >= 2 && bad.len() % n != 0 { if let Ok(v) = catch(|| solve_sys(&a, &bad)) { out.push(Finding { class: "solve_sys:mismatch-accepted".into(), what: format!("solve_sys returned {} values for {} right-hand-side entries against order {}", v.len(), bad.len(), n), input: format!("{} bad_b={}", input, json_floats(&bad)) }); } }
+            if let Ok(v) = catch(|| Solve::<Vector>::solve(&m, &Vector::new(bad.clone())).v) { out.push(Finding { class: "Matrix::solve(Vector):mismatch-accepted".into(), what: format!("returned {} values for a right-hand side of length {} against order {}", v.len(), bad.len(), n), input: format!("{} bad_b={}", input, json_floats(&bad)) }); }
+            if n >= 2 { let ns: Vec<f64> = a[..n * (n - 1)].to_vec();
+                if let Ok(v) = catch(|| invert_matrix(&ns)) { if (((n * (n - 1)) as f64).sqrt() as usize).pow(2) != n * (n - 1) { out.push(Finding { class: "invert_matrix:nonsquare-accepted".into(), what: format!("invert_matrix returned {} values for {} entries", v.len(), ns.len()), input: input.clone() }); } } }
+        }
+        if out.len() > before && out.len() > 60 { break; }
+    }
+    (tried, out)
+}
